@@ -70,7 +70,7 @@ func (o *evObserver) OnDictionaryUpgrade(_ string, f string, _, _ arrow.DataType
 	o.events[f] = "DUpgrade"
 }
 func (o *evObserver) OnDictionaryOverflow(_ string, f string, _, _ uint64) { o.events[f] = "DOverflow" }
-func (o *evObserver) OnSchemaUpdate(string, *arrow.Schema, *arrow.Schema) {}
+func (o *evObserver) OnSchemaUpdate(string, *arrow.Schema, *arrow.Schema)  {}
 func (o *evObserver) OnDictionaryReset(_ string, f string, _ arrow.DataType, _, _ uint64) {
 	o.events[f] = "DReset"
 }
